@@ -171,7 +171,7 @@ def main(argv=None):
         return replay(prop, mod, tier, args.seed, args.replay)
 
     t0 = time.monotonic()
-    outdir = os.path.join(VERIF, "out", "shards")
+    outdir = os.path.join(os.environ.get("VERIF_SCRATCH") or os.path.join(VERIF, "out"), "shards")
     os.makedirs(outdir, exist_ok=True)
     procs = []
     env = dict(os.environ)
@@ -234,7 +234,7 @@ def finish(prop, mod, tier, seed, results, crashed, wall, nshards):
         stopped += bool(r["stopped_by_budget"])
     known = {k["key"]: k for k in load_known() if k["property"] == prop and k["status"] == "known"}
     fixed = {k["key"]: k for k in load_known() if k["property"] == prop and k["status"] == "fixed"}
-    replay_dir = os.path.join(VERIF, "out", "replay")
+    replay_dir = os.environ.get("VERIF_REPLAY_DIR") or os.path.join(VERIF, "out", "replay")
     os.makedirs(replay_dir, exist_ok=True)
     lines = []
     new_keys = []
@@ -290,8 +290,9 @@ def finish(prop, mod, tier, seed, results, crashed, wall, nshards):
         "wall_s": round(wall, 2),
         "violations": sum(vcount.get(k, 0) for k in new_keys),
     }
-    os.makedirs(os.path.join(VERIF, "evidence"), exist_ok=True)
-    with open(os.path.join(VERIF, "evidence", prop + ".json"), "w") as f:
+    evdir = os.environ.get("VERIF_EVIDENCE_DIR") or os.path.join(VERIF, "evidence")
+    os.makedirs(evdir, exist_ok=True)
+    with open(os.path.join(evdir, prop + ".json"), "w") as f:
         json.dump(ev, f, indent=1, default=_json_default)
     for ln in lines:
         print(ln)
